@@ -37,6 +37,9 @@ const SIZES: [usize; 255] = [
 
 type Key = [u8; 32];
 
+/// T2 dumps above this size are not sent to the Lean driver (counted as `t2.skipped.*`).
+const T2_MAX_LINE: usize = 200 * 1024;
+
 fn options(path: &Path) -> Options {
 	let mut o = Options::with_columns(path, 1);
 	o.columns[0] = ColumnOptions { uniform: true, ..Default::default() };
@@ -768,6 +771,81 @@ impl<'a> Case<'a> {
 		self.structure("recovery");
 	}
 
+	/// T2 rendering of one value table (format: lean/Pdb/Model/DumpCheck.lean): metadata of the
+	/// open handle, the 16-byte file header, the first min(40, entry_size) raw bytes of every
+	/// slot below `filled`.  `None` if the text would exceed `T2_MAX_LINE`.
+	fn t2_table(&self, tb: &parity_db::verif::TableDump, budget: usize) -> Option<String> {
+		let db = self.sut.db();
+		let mut s = format!("{} {} {} 0 {} {}", tb.tier, tb.entry_size, tb.multipart as u8, tb.filled, tb.last_removed);
+		for i in 0..tb.filled {
+			let raw = db.verif_table_entry(0, tb.tier, i).ok()?;
+			let n = if i == 0 { 16 } else { std::cmp::min(40, tb.entry_size as usize) };
+			s.push(' ');
+			s.push_str(&hex(&raw[..std::cmp::min(n, raw.len())]));
+			if s.len() > budget {
+				return None
+			}
+		}
+		Some(s)
+	}
+
+	/// Emit `t2 slots` (one per value table) and `t2 index` (whole column) op lines; the
+	/// compiled Lean driver must answer `ok` to each (standard correspondence step).
+	fn t2_emit(&mut self, d: &parity_db::verif::VerifDump, content: &BTreeMap<Key, String>) {
+		let mut tables: Vec<String> = vec![];
+		let mut complete = true;
+		for tb in &d.tables {
+			match self.t2_table(tb, T2_MAX_LINE) {
+				Some(s) => {
+					self.ctr.inc("t2.slots.lines");
+					self.ctr.add("t2.slots.slots", tb.filled - 1);
+					self.ctr.add("t2.bytes", s.len() as u64);
+					if tb.multipart {
+						self.ctr.inc("t2.slots.multipart_tables");
+					}
+					self.t.op(&format!("t2 slots {}", s), "ok");
+					tables.push(s);
+				},
+				None => {
+					self.ctr.inc("t2.skipped.slots_too_big");
+					complete = false;
+				},
+			}
+		}
+		if !complete {
+			self.ctr.inc("t2.skipped.index_incomplete");
+			return
+		}
+		let mut line = format!("t2 index {}", d.progress);
+		let mut n_entries = 0u64;
+		for (bits, entries) in &d.index {
+			line.push_str(&format!(" T {}", bits));
+			for (chunk, slot, e) in entries {
+				line.push_str(&format!(" {}:{}:{}", chunk, slot, e));
+				n_entries += 1;
+			}
+		}
+		for s in &tables {
+			line.push_str(" V ");
+			line.push_str(s);
+		}
+		line.push_str(" K");
+		for k in content.keys() {
+			line.push(' ');
+			line.push_str(&hex(k));
+		}
+		if line.len() > T2_MAX_LINE {
+			self.ctr.inc("t2.skipped.index_too_big");
+			return
+		}
+		self.ctr.inc("t2.index.lines");
+		self.ctr.inc(&format!("t2.index.tables.{}", d.index.len()));
+		self.ctr.add("t2.index.entries", n_entries);
+		self.ctr.add("t2.index.keys", content.len() as u64);
+		self.ctr.add("t2.bytes", line.len() as u64);
+		self.t.op(&line, "ok");
+	}
+
 	/// C14: structural observation of a drained handle through the dump hook.
 	fn structure(&mut self, at: &str) {
 		if self.sut.dead || !self.sut.pending.is_empty() || self.sut.logged_unflushed > 0 || !self.sut.files.is_empty() {
@@ -782,6 +860,8 @@ impl<'a> Case<'a> {
 		};
 		self.ctr.inc("c14.dumps");
 		let content = self.processed().clone();
+		// T2: the LEAN definitions (SlotInv, IdxInv, NoLeak) evaluated on this very state
+		self.t2_emit(&d, &content);
 		// value tables
 		let mut heads: HashMap<(u8, u64), Vec<u8>> = HashMap::new();
 		let mut slot_line: Vec<String> = vec![];
